@@ -741,6 +741,35 @@ def inplace(repo):
                 sites += 1
                 if fn.name not in allowed:
                     failures.append({"site": f"{rel}:{n.lineno} in Array.{fn.name}", "what": "setattr(_expr) outside the sanctioned methods"})
+    # _replace_expr drops every derived cache unconditionally: every cached_property of Array must be popped from
+    # self.__dict__ by a statement that is not under any condition
+    import functools as _ft
+    cached = set()
+    for fn in cls.body:
+        if isinstance(fn, ast.FunctionDef):
+            for d in fn.decorator_list:
+                if (dotted(d) or "").split(".")[-1] == "cached_property":
+                    cached.add(fn.name)
+    rep = next((fn for fn in cls.body if isinstance(fn, ast.FunctionDef) and fn.name == "_replace_expr"), None)
+    dropped = set()
+    if rep is not None:
+        for stt in rep.body:  # top-level statements only: unconditional
+            if isinstance(stt, ast.For) and isinstance(stt.iter, (ast.Tuple, ast.List)) and isinstance(stt.target, ast.Name) \
+                    and all(isinstance(e, ast.Constant) for e in stt.iter.elts):
+                names = [e.value for e in stt.iter.elts]
+                for b in stt.body:  # directly in the loop body: unconditional per name
+                    if isinstance(b, ast.Expr) and isinstance(b.value, ast.Call) and dotted(b.value.func) == "self.__dict__.pop" \
+                            and b.value.args and isinstance(b.value.args[0], ast.Name) and b.value.args[0].id == stt.target.id:
+                        dropped.update(names)
+            elif isinstance(stt, ast.Expr) and isinstance(stt.value, ast.Call) and dotted(stt.value.func) == "self.__dict__.pop" \
+                    and stt.value.args and isinstance(stt.value.args[0], ast.Constant):
+                dropped.add(stt.value.args[0].value)
+    for name in sorted(cached):
+        sites += 1
+        if name not in dropped:
+            failures.append({"site": f"{rel}:{rep.lineno if rep else 0} in Array._replace_expr",
+                             "what": f"the cached derivation `{name}` is not dropped unconditionally when the expression is swapped in "
+                                     "place, so the collection can keep advertising keys / a lowered graph of its previous expression"})
     # no expression class assigns to `operands` / mutates an operand after construction
     for mrel in all_modules(repo):
         tree, _ = parse(repo, mrel)
